@@ -26,7 +26,7 @@ TECHNIQUE = ("fault enumeration + fuzzing: for base datagrams of the reference a
              "atheris campaigns in the thorough tier. Oracle: CPU time and resident-memory growth bounded by a stated multiple of the "
              "datagram size, and the same client / listener handles the next valid exchange correctly")
 RULE = ("case = entry path {response, discovery reply, trap listener} x base datagram x mutation {bit i, truncation at n, header octet "
-        "o := v, the same on the plaintext scoped PDU of an authenticated / encrypted message, raw bytes, generated TLV tree incl. wide flat sequences of up to 20000 tiny elements in every frame position, Response / Report / discovery Report whose integer fields (request-id, error-status, error-index, boots, time, counter) have any width and value} + a peer that answers EVERY request of one call the same way (authentic notInTimeWindow report after a restart each time, one recorded report replayed, the first response replayed, unknownEngineID for ever: the call must end within 40 datagrams); oracle "
+        "o := v, the same on the plaintext scoped PDU of an authenticated / encrypted message, raw bytes, generated TLV tree incl. wide flat sequences of up to 20000 tiny elements in every frame position, overlap chains (children that end beyond their parent) and properly nested values of depth 10..1500 with DEBUG logging on and off, on every entry path incl. the pythonic wrapper, Response / Report / discovery Report whose integer fields (request-id, error-status, error-index, boots, time, counter) have any width and value} + a peer that answers EVERY request of one call the same way (authentic notInTimeWindow report after a restart each time, one recorded report replayed, the first response replayed, unknownEngineID for ever: the call must end within 40 datagrams) + histories of 150..1800 refused datagrams on one client / listener (what stays allocated must not grow with their number); oracle "
         "budget: CPU <= 2 s + 100 us x len, resident-set growth <= 48 MiB + 1024 x len; non-trivial = the mutant is rejected (an "
         "exception) or differs from the base in a header octet; distinct = (exception type, innermost puresnmp / x690 frame) "
         "buckets are reported, distinct count = distinct mutants")
@@ -187,8 +187,8 @@ def mutate(data, mut):
             return vber.enc_community_message(f["v"], b"public", pdu)
         usm = vber.enc_usm_params(b"\x80\x00\x1f\x88\x80verif-agent", 3, 1000, b"", b"", b"")
         return vber.enc_v3_message(0x6553F100, 65507, 0, 3, usm, vber.enc_scoped_pdu(b"\x80\x00\x1f\x88\x80verif-agent", b"", pdu))
-    if k == "overlap":
-        return None      # needs the base: built by overlap_mutant()
+    if k in ("overlap", "deep"):
+        return None      # needs the base: built by overlap_mutant() / deep_mutant()
     if k == "raw":
         return bytes.fromhex(mut[1])
     if k == "tree":
@@ -206,6 +206,50 @@ def overlap_chain(k, tail=b"\x05\x00"):
             break
         body = b"\x30\x02\x30" + bytes([len(body)]) + body
     return body
+
+
+def nest(depth, tag, inner=b"\x05\x00"):
+    """`depth` properly nested TLVs of one tag (OCTET STRING or SEQUENCE) around `inner`"""
+    body = inner
+    for _ in range(depth):
+        body = vber.tlv(tag, body)
+    return body
+
+
+def deep_mutant(base, data, depth, tag, where):
+    """the base datagram with a deeply (and properly) nested value in its first binding or, for SNMPv3, as the content of
+    msgSecurityParameters"""
+    path = base[0]
+    val = nest(depth, tag)
+    try:
+        if path == "inner":
+            t, c = vber.read_one(data)
+            p = vber.parse_pdu(t, c)
+        else:
+            m = vber.parse_message(data)
+            p = m.get("pdu")
+    except vber.BerError:
+        return None
+
+    def pdu_with(p):
+        head = vber.enc_int(p["rid"]) + vber.enc_int(p["f1"]) + vber.enc_int(p["f2"])
+        vbs = p["vbs"] or [(SC, vber.T_NULL, b"")]
+        first = vber.tlv(vber.T_SEQ, vber.enc_oid(vbs[0][0]) + val)
+        rest = b"".join(vber.enc_varbind(o, t, c) for o, t, c in vbs[1:])
+        return vber.tlv(p["tag"], head + vber.tlv(vber.T_SEQ, first + rest))
+
+    if path == "inner":
+        return pdu_with(p) if where == "value" else None
+    if m["version"] in (0, 1):
+        return vber.enc_community_message(m["version"], m["community"], pdu_with(p)) if where == "value" else None
+    if p is None or m["flags"] & 1:
+        return None
+    if where == "secparams":
+        return vber.enc_v3_message(m["msg_id"], m["max_size"], m["flags"], 3, val,
+                                   vber.enc_scoped_pdu(m["ctx_engine"], m["ctx_name"], vber.enc_pdu(p["tag"], p["rid"], 0, 0, p["vbs"])))
+    usm = vber.enc_usm_params(m["engine_id"], m["boots"], m["time"], m["user"], b"", b"")
+    return vber.enc_v3_message(m["msg_id"], m["max_size"], m["flags"], 3, usm,
+                               vber.enc_scoped_pdu(m["ctx_engine"], m["ctx_name"], pdu_with(p)))
 
 
 def overlap_mutant(base, data, k, where):
@@ -525,6 +569,33 @@ class _Overlaps:
                     yield dict(base=list(base), mut=["overlap", k, where])
 
 
+class _Shard:
+    def __init__(self, it, k, m):
+        self.a = (it, k, m)
+
+    def __iter__(self):
+        it, k, m = self.a
+        for n, c in enumerate(it):
+            if n % m == k:
+                yield c
+
+
+class _Deep:
+    """properly nested values of growing depth, with and without DEBUG logging (a user who looks for a problem logs)"""
+
+    def __init__(self, tier):
+        self.tier = tier
+
+    def __iter__(self):
+        bases = [b for b in BASES(self.tier) if b[0] != "udp"] + [("pyresponse", "v2c", "get")]
+        for base in bases:
+            for where in ("value", "secparams"):
+                for tag in (vber.T_OCTETS, vber.T_SEQ):
+                    for depth in (10, 100, 400, 800, 1500):
+                        for debug in (False, True):
+                            yield dict(base=list(base), mut=["deep", depth, tag, where], debug=debug)
+
+
 class _Stubborn:
     def __iter__(self):
         for pname in ("v3a", "v3p", "v3n", "v2c"):
@@ -552,6 +623,8 @@ def run_case(case, use_guard=True) -> Result:
     data = base_bytes(base)
     if case["mut"][0] == "overlap":
         mutant = overlap_mutant(base, data, case["mut"][1], case["mut"][2])
+    elif case["mut"][0] == "deep":
+        mutant = deep_mutant(base, data, case["mut"][1], case["mut"][2], case["mut"][3])
     else:
         mutant = mutate(data, case["mut"])
     classes = ["path=" + base[0], "proto=" + base[1], "mut=" + case["mut"][0]]
@@ -974,7 +1047,9 @@ def history_unit(check, stats, *, label, known_ids=(), n=150, size=20000):
 def units(tier, seed):
     us = [Unit("history", history_unit, label="history", n=150 if tier == "quick" else 600),
           Unit("stubborn", enumeration_unit, cases=_Stubborn(), label="stubborn", exhaustive=False),
-          Unit("overlaps", enumeration_unit, cases=_Overlaps(tier), label="overlaps", exhaustive=False, stop_after=40)]
+          Unit("overlaps", enumeration_unit, cases=_Overlaps(tier), label="overlaps", exhaustive=False, stop_after=40),
+          Unit("deep-0", enumeration_unit, cases=_Shard(_Deep(tier), 0, 2), label="deep-0", exhaustive=False, stop_after=40),
+          Unit("deep-1", enumeration_unit, cases=_Shard(_Deep(tier), 1, 2), label="deep-1", exhaustive=False, stop_after=40)]
     if tier == "thorough":
         import vfuzz
 
